@@ -7,7 +7,10 @@
    (`VInt` int, `VFrac` Fraction, `VFloat` binary64 float, `VErr` raised exception).  `Ledger.min_fee p size steps
    mem refbytes` = a*size + b + ceil(price_mem*mem + price_step*steps) + floor(tier p refbytes) is the Conway rule in
    exact rationals; `Ledger.tier` the tiered reference-script price.  `twopass`/`tp_*` is the size algebra of
-   TransactionBuilder._add_change_and_fee (Fee.v). *)
+   TransactionBuilder._add_change_and_fee (Fee.v).  `futxo` is a UTxO as the fee rules see it (reference, bytes of the
+   script its output carries, locking key); `Touched.resolve_all tbl refs` looks references up in the UTxO set `tbl`;
+   `builder_ref_size` / `builder_witness_count` model TransactionBuilder._ref_script_size / _witness_count;
+   `Touched.ref_script_bytes` / `Touched.needed_keys` are the ledger's reading of the same transaction. *)
 From Coq Require Import ZArith QArith Qround String List Bool.
 From Coq Require Import PrimFloat.
 From PyC Require Import Base Cbor Fee FeeProofs FeeSweep1 FeeSweep2 FeeGenProofs.
@@ -141,3 +144,27 @@ Theorem C07_width_refuted_old_scheme :
   old_fee2 old_est old_witness < old_est (old_final old_est old_witness).
 Proof. exact old_scheme_refuted. Qed.
 Print Assumptions C07_width_refuted_old_scheme.
+
+(* What the estimate is told about the touched UTxOs.  The reference-script bytes the builder feeds into the fee
+   (`r` of C07_sufficient) are the ledger's: every output the body spends or references counts once — also when it is
+   listed among the inputs and among the reference inputs — and equal scripts on different outputs count each time. *)
+Theorem C07_ref_script_bytes : forall tbl ins refs uins urefs,
+  Touched.resolve_all tbl ins = Some uins -> Touched.resolve_all tbl refs = Some urefs ->
+  builder_ref_size uins urefs = Touched.ref_script_bytes tbl ins refs.
+Proof. exact ref_size_ledger. Qed.
+Print Assumptions C07_ref_script_bytes.
+
+(* the ledger's sum ranges over a set: no reference twice, the same members as inputs ++ reference inputs *)
+Theorem C07_ref_script_set : forall l, NoDup (Touched.distinct l) /\ forall x, In x (Touched.distinct l) <-> In x l.
+Proof. exact distinct_is_set. Qed.
+Print Assumptions C07_ref_script_set.
+
+(* One placeholder witness per key the ledger asks for (keys locking spent and collateral inputs, required signers,
+   key leaves of the native scripts), PROVIDED the count is taken on the inputs and collateral of the final body; the
+   premise of C07_sufficient "same number of witnesses as placeholders" rests on this (checked per run by build_corr:
+   placeholders of the last fake transaction = this count = witnesses in the signed bytes). *)
+Theorem C07_witness_count : forall tbl ins coll uins ucoll req skeys,
+  Touched.resolve_all tbl ins = Some uins -> Touched.resolve_all tbl coll = Some ucoll ->
+  builder_witness_count uins ucoll req skeys = Z.of_nat (List.length (Touched.needed_keys tbl ins coll req skeys)).
+Proof. exact witness_count_ledger. Qed.
+Print Assumptions C07_witness_count.
